@@ -279,7 +279,7 @@ func (inc *Inc) loop() {
 		case Handled:
 			continue
 		case SeverBefore:
-			inc.Link.Sever()
+			inc.Link.DrainThenSever(50 * time.Millisecond)
 			return
 		}
 		inc.B.handle(inc, e)
@@ -287,7 +287,7 @@ func (inc *Inc) loop() {
 			inc.B.After(inc, e)
 		}
 		if v == SeverAfter {
-			inc.Link.Sever()
+			inc.Link.DrainThenSever(50 * time.Millisecond)
 			return
 		}
 	}
